@@ -5,6 +5,7 @@
 //! exit: 0 property held on everything explored; 1 violation; 2 harness error.
 
 #![allow(dead_code, non_snake_case, unused_mut)]
+mod c08;
 mod c12;
 mod c16;
 mod c18;
@@ -61,6 +62,22 @@ fn scenarios_for(prop: &str) -> Option<(Vec<Box<dyn Scenario>>, Report)> {
                     "num-bigint comparison",
                     "uniformity is a statistical judgement: chi-square, reject only below p = 1e-12 per test",
                     "no algorithm-level model of the sampler: value and consumption are never predicted, only compared fixed vs boxed",
+                ],
+            ),
+        )),
+        "C08" => Some((
+            vec![Box::new(c08::History { faults: false }), Box::new(c08::History { faults: true })],
+            base(
+                "C08",
+                "exploration",
+                "one run = one history of 4..64 events over 8 registers, executed in lock-step on the ConstMontyForm (table moduli), MontyForm and BoxedMontyForm replicas against the Z/mZ reference model; every touched register of every replica is checked after every event (stored form < m, retrieve == model, replicas agree, boxed precision), all registers again at the end; parameter sets from new / new_vartime / from_const_params / impl_modulus! are compared with each other and with their definitions once per run. Batch c08-history is fault-free; batch c08-history-faults adds RNG (try_random on scripted/failing tapes) and persist/restore (serde seam + medium faults) events. distinct_nontrivial = distinct abstract states (operation, modulus class, width class) plus (width, modulus class, replica set)",
+                &["reference model ZmodM on num-bigint", "RNG tape for ConstMontyForm::try_random", "serde format + storage medium for persist/restore"],
+                &[
+                    "to_words()/from_words() bridge; Monty::as_montgomery / as_montgomery() as the read-out of the stored form",
+                    "operands stay in the documented domain: all registers of a run share one parameter set; from_montgomery is only fed canonical values",
+                    "private parameter fields (one, r2, r3, mod_neg_inv, mod_leading_zeros) are read from the derived Debug rendering; failing to parse it is a harness error (exit 2)",
+                    "the const replica only sees the compile-time modulus table (moduli.rs); runtime and boxed replicas also see seeded moduli",
+                    "BoxedMontyForm has no selection API: select/swap events are emulated by cloning on that replica",
                 ],
             ),
         )),
